@@ -181,16 +181,6 @@ def sc_direction(rep: Report, consts: dict, what: str):
     chunks = [items[i:i + 2000] for i in range(0, len(items), 2000)]
     traces = [t for ch in pmap(_object_chunk, chunks, chunksize=1) for t in ch]
     rep.evaluated(len(traces))
-    val = validate_traces("ReportTrace", traces, constants=CONSTS_TRACE, batch=30000, timeout=1800)
-    rep.validation(val, "ReportTrace")
-    by = {t["id"]: (t, r) for t, (_, r) in zip(traces, items)}
-    for rj in val.rejected:
-        t, r = by[rj["id"]]
-        ev = t["events"][0]
-        rep.violation(rj["clause"], {"level": "object", "codes": ",".join(sorted({x[0] for x in ev["inp"]}))},
-                      f"deduplicate_in_source_space on the enumerated list (code, fix kind, line, pos, desc, variant) "
-                      f"{r['inp']}: objects projected as {ev['inp']} (fix / description ids interned in order of "
-                      f"appearance), returned {ev['out']} (last field = input index)", {"kind": "object", "rec": r})
     for t, (_, r) in zip(traces, items):
         ev = t["events"][0]
         if [x[5] for x in ev["out"]] != r["algo"]:
@@ -199,7 +189,7 @@ def sc_direction(rep: Report, consts: dict, what: str):
         if len(set(sigs)) < len(sigs) or sorted(sigs, key=lambda s: (s[2], s[3])) != sigs:
             rep.nontrivial(json.dumps(r["inp"]))
     rep.sample({"S->C case": traces[len(traces) // 2]})
-    return len(recs)
+    return traces, {t["id"]: r for t, (_, r) in zip(traces, items)}
 
 
 # ------------------------------------------------------------------ C->S
@@ -313,18 +303,6 @@ def cs_direction(rep: Report, tier: str, seed: int):
     if not traces or any(t["ncalls"] != 1 for t in traces):
         raise MachineryError("C33 recorder: expected exactly one deduplicate_in_source_space call per lint "
                              f"({[t['id'] for t in traces if t['ncalls'] != 1][:3]})")
-    val = validate_traces("ReportTrace", [{"id": t["id"], "events": t["events"]} for t in traces],
-                          constants=CONSTS_TRACE, batch=1500, timeout=1800)
-    rep.validation(val, "ReportTrace")
-    by = {t["id"]: t for t in traces}
-    for rj in val.rejected:
-        t = by[rj["id"]]
-        it = by_item[t["id"]]
-        ev = t["events"][rj["step"] - 1]
-        rep.violation(rj["clause"], {"level": "lint", "event": ev["ev"], "source": t["id"].split(":")[0]},
-                      f"lint of {t['id']} ({it['text'][:200]!r}): event {ev['ev']} rejected; "
-                      f"reported rows (code, fix id, line, pos, desc id, src) {ev['out'][:12]}",
-                      {"kind": "lint", "item": it, "verdict": rj})
     for t in traces:
         if t["removed"] > 0 or t["reordered"]:
             rep.nontrivial(h(by_item[t["id"]]["text"]))
@@ -340,19 +318,53 @@ def cs_direction(rep: Report, tier: str, seed: int):
     ex = next((t for t in traces if t["removed"] > 0 and t["variants"] > 1), traces[0])
     rep.sample({"C->S input": by_item[ex["id"]]["text"][:300], "variants": ex["variants"], "removed": ex["removed"],
                 "report": ex["events"][-1]["out"][:8]})
+    return traces, by_item
+
+
+def judge(rep: Report, obj_traces, obj_recs, lint_traces, by_item):
+    """One oracle for both directions: every recorded behaviour goes through ReportTrace."""
+    allt = [{"id": t["id"], "events": t["events"]} for t in obj_traces + lint_traces]
+    val = validate_traces("ReportTrace", allt, constants=CONSTS_TRACE, batch=60000, timeout=2400)
+    rep.validation(val, "ReportTrace")
+    lint_by = {t["id"]: t for t in lint_traces}
+    obj_by = {t["id"]: t for t in obj_traces}
+    for rj in val.rejected:
+        if rj["id"] in obj_by:
+            t, r = obj_by[rj["id"]], obj_recs[rj["id"]]
+            ev = t["events"][0]
+            rep.violation(rj["clause"], {"level": "object", "codes": ",".join(sorted({x[0] for x in ev["inp"]}))},
+                          f"deduplicate_in_source_space on the enumerated list (code, fix kind, line, pos, desc, variant) "
+                          f"{r['inp']}: objects projected as {ev['inp']} (fix / description ids interned in order of "
+                          f"appearance), returned {ev['out']} (last field = input index)", {"kind": "object", "rec": r})
+        else:
+            t = lint_by[rj["id"]]
+            it = by_item[t["id"]]
+            ev = t["events"][rj["step"] - 1]
+            rep.violation(rj["clause"], {"level": "lint", "event": ev["ev"], "source": t["id"].split(":")[0]},
+                          f"lint of {t['id']} ({it['text'][:200]!r}): event {ev['ev']} rejected; "
+                          f"reported rows (code, fix id, line, pos, desc id, src) {ev['out'][:12]}",
+                          {"kind": "lint", "item": it, "verdict": rj})
 
 
 def run(tier: str, seed: int) -> int:
     rep = Report(PROP, tier, seed, "model_checking")
-    n = sc_direction(rep, {"MaxViols": 3 if SMALL else 4, "MaxVariants": 3, "Profile": "narrow"},
-                     "every list of <= 4 violations over 3 positions x {A, A+fix, PRS} from <= 3 variants")
-    n += sc_direction(rep, {"MaxViols": 3, "MaxVariants": 3, "Profile": "srcfix"},
-                      "every list of <= 3 violations over 3 positions x {A+fix, A+fix+source fix, B} from <= 3 variants")
+    nmax = 3 if SMALL else 4
+    suites = [({"MaxViols": nmax, "MaxVariants": 3, "Profile": "narrow"},
+               f"every list of <= {nmax} violations over 3 positions x {{A, A+fix, PRS}} from <= 3 variants"),
+              ({"MaxViols": 3, "MaxVariants": 3, "Profile": "srcfix"},
+               "every list of <= 3 violations over 3 positions x {A+fix, A+fix+source fix, B} from <= 3 variants")]
     if tier == "thorough":
-        n += sc_direction(rep, {"MaxViols": 3, "MaxVariants": 3, "Profile": "wide"},
-                          "every list of <= 3 violations over 4 positions x 5 kinds x 2 descriptions from <= 3 variants")
+        suites.append(({"MaxViols": 3, "MaxVariants": 3, "Profile": "wide"},
+                       "every list of <= 3 violations over 4 positions x 5 kinds x 2 descriptions from <= 3 variants"))
+    obj_traces, obj_recs = [], {}
+    for consts, what in suites:
+        ts, rs = sc_direction(rep, consts, what)
+        obj_traces += ts
+        obj_recs.update(rs)
+    n = len(obj_traces)
     rep.exhaustive = True
-    cs_direction(rep, tier, seed)
+    lint_traces, by_item = cs_direction(rep, tier, seed)
+    judge(rep, obj_traces, obj_recs, lint_traces, by_item)
     rep.rule = ("S->C: TLC enumerates every violation list of the scope; non-trivial = the list has a duplicate "
                 "signature or is out of (line, pos) order; distinct by list.  C->S: one trace per linted input; "
                 "non-trivial = dedupe removed at least one violation or the sort changed the order; distinct by text")
